@@ -145,7 +145,20 @@ def _seq_strategy():
             st.sampled_from([s for s in dl.sizes(method) if s <= maxs]),
             st.sampled_from([s + 1 for s in dl.sizes(method) if s + 1 <= maxs]),
         )
+        top_s, top_d = max(dl.sizes(method)), max(dl.degrees(method))
+        oversize = st.fixed_dictionaries(
+            {
+                "method": st.just(method),
+                "route": st.just("oversize"),
+                "via": st.sampled_from(["convert", "atom-sizes", "atom-degrees", "pruned-sizes", "pruned-degrees"]),
+                "seq": st.lists(st.integers(1, 200), min_size=1, max_size=5),
+                "pos": st.integers(0, 5),
+                "excess": st.sampled_from([1, 2, 7, 1000, 10**6]),
+                "as_array": st.booleans(),
+            }
+        )
         return st.one_of(
+            oversize,
             st.fixed_dictionaries(
                 {
                     "method": st.just(method),
@@ -186,6 +199,33 @@ def body_seq(case, ctx):
     method, route = case["method"], case["route"]
     ctx.cls(f"{route}")
     degs, sizes = dl.degrees(method), dl.sizes(method)
+    if route == "oversize":
+        # a sequence with one element above the method's maximum must be rejected, whichever route it takes
+        via = case["via"]
+        is_size = via in ("convert", "atom-sizes", "pruned-sizes")
+        top = max(sizes) if is_size else max(degs)
+        seq = [min(v, top) for v in case["seq"]]
+        seq.insert(case["pos"] % (len(seq) + 1), top + case["excess"])
+        n = len(seq)
+        arg = np.array(seq) if case["as_array"] else list(seq)
+        rg = OneDGrid(np.linspace(0.2, 2.0, n), np.ones(n), (0, np.inf))
+        ctx.cls(f"oversize-via-{via}")
+        ctx.nt()
+        try:
+            if via == "convert":
+                out = AngularGrid.convert_angular_sizes_to_degrees(np.array(seq), method)
+            elif via == "atom-sizes":
+                out = AtomGrid(rg, degrees=None, sizes=arg, method=method).degrees
+            elif via == "atom-degrees":
+                out = AtomGrid(rg, degrees=arg, method=method).degrees
+            elif via == "pruned-sizes":
+                out = AtomGrid.from_pruned(rg, 1.0, r_sectors=list(np.linspace(0.3, 1.9, n - 1)) if n > 1 else [], d_sectors=None, s_sectors=list(seq), method=method).degrees
+            else:
+                out = AtomGrid.from_pruned(rg, 1.0, r_sectors=list(np.linspace(0.3, 1.9, n - 1)) if n > 1 else [], d_sectors=list(seq), method=method).degrees
+        except ValueError:
+            return
+        ctx.fail("oversize-request-in-sequence-accepted", f"{method} via {via}: {seq} (max supported {top}) was accepted -> degrees {list(out)}")
+        return
     if route == "convert":
         req = case["sizes"]
         arg = np.array(req) if case["as_array"] else list(req)
